@@ -38,12 +38,15 @@ STATES = ("absent", "fresh", "stale", "expired")
 
 def points(tier: str) -> List[Dict[str, Any]]:
     pts: List[Dict[str, Any]] = []
-    timeouts = (200, 3000, 10000)
+    timeouts = (200, 3000, 10000) if tier == "quick" else (200, 1000, 3000, 10000)
     for cache in itertools.product(STATES, repeat=4):
         st = dict(zip(KINDS, cache))
         missing = [k for k in KINDS if st[k] in ("absent", "expired")]
         for timeout in timeouts:
             arr_main = ("never", 50, 250, timeout - 1, timeout, timeout + 1)
+            if tier != "quick":
+                # ... and around the instants of the lookup's own second and third query
+                arr_main = tuple(dict.fromkeys(arr_main + tuple(x for x in (219, 221, 1219, 1221) if x < timeout)))
             menus = []
             for k in missing:
                 if k in ("srv", "a"):
